@@ -240,13 +240,15 @@ Print Assumptions C14_word_at_xid_fixed.
 (* FULL STATEMENT (not proved; oracle: ast attribute chains on every generated case): at the last identifier of any
    attribute chain (with calls, subscripts, spaces, continuation lines) get_primary_range is the chain.
    Proved: for plain dotted names name_1.name_2. ... .name_k without spaces, at every offset of name_k, for every text and
-   every Unicode table in which identifier characters are not white space: the range is the whole chain, provided no name
-   is a keyword and the chain is not preceded by a dot (hypotheses name_at / chain_from of coq/C14/PrimarySpec.v).
-   Names ending in the letters f-r-o-m are inside the theorem since rope commit b8cf919. *)
+   every Unicode table in which identifier characters are not white space: the range is the whole chain, provided the
+   FIRST name is no keyword (when the chain is a single name: the part of it up to the offset), no name before a dot is
+   the word from itself (the relative-import test of _find_primary_start fires on it) and the chain is not preceded by a
+   dot (hypotheses name_at / chain_from of coq/C14/PrimarySpec.v). Names ending in the letters f-r-o-m are inside the
+   theorem since rope commit b8cf919, names after a dot that are spelled like keywords since 2b4039e (_follows_dot). *)
 Theorem C14_primary_chain_partial : forall (u : utable) (code : text) (s e o a : Z) (n : nat),
   (forall c, is_id_char u c = true -> isspace u c = false) ->
   name_at u code (lenZ code) s e -> (e = lenZ code \/ idc u code e false) -> (s <= o < e)%Z ->
-  (iskeyword (sliceC code (lenZ code) s (o + 1)) = false \/ (o + 1 < e)%Z) ->
+  (n = O -> iskeyword (sliceC code (lenZ code) s (o + 1)) = false \/ (o + 1 < e)%Z) ->
   chain_from u code (lenZ code) (fuel_for code) s a n ->
   w_primary_range u code o = Val (a, e).
 Proof. exact primary_chain_entry. Qed.
@@ -257,6 +259,13 @@ Example C14_primary_chain_example :
   w_primary_range (table_of [] [] []) [97; 98; 46; 99; 100; 46; 101; 102]%N 7 = Val (0, 8)%Z.
 Proof. exact primary_chain_example. Qed.
 Print Assumptions C14_primary_chain_example.
+
+(* s.is.x : an attribute name spelled like a keyword no longer cuts the chain (2b4039e) *)
+Example C14_primary_keyword_attribute_example :
+  w_primary_range (table_of [] [] []) [115; 46; 105; 115; 46; 120]%N 5 = Val (0, 6)%Z
+  /\ w_primary_range (table_of [] [] []) [115; 46; 105; 115; 46; 120]%N 3 = Val (0, 4)%Z.
+Proof. exact primary_keyword_attribute_example. Qed.
+Print Assumptions C14_primary_keyword_attribute_example.
 
 (* the defect fixed by b8cf919:  x = date_from.year  (replay corpus/C14/C14-name-ending-in-from.json) *)
 Example C14_primary_from_fixed :
